@@ -152,13 +152,13 @@ class Runner:
                 args.append("-n")
             if op.get("dr"):
                 args.append("-dr")
-            for p in op.get("P", []):
+            for p in list(op.get("P", [])) + (list(op.get("P", []))[:1] if op.get("pdup") else []):
                 args += ["-i", concrete_pattern(w, p)]
             if op.get("PF"):
                 self.patfiles += 1
                 pf = os.path.join(w.base, "patterns-%d.txt" % self.patfiles)
                 with open(pf, "w") as fh:
-                    fh.write("".join(concrete_pattern(w, p) + "\n" for p in op["PF"]))
+                    fh.write("".join(concrete_pattern(w, p) + "\n" for p in list(op["PF"]) + (list(op["PF"])[:1] if op.get("pdup") else [])))
                 args += ["-ii", pf]
             for key, opt in (("author", "--author_name"), ("email", "--author_email"), ("phone", "--author_phone"), ("role", "--author_role"), ("location", "--location"), ("comment", "--comment")):
                 if op.get(key) is not None:
@@ -188,7 +188,7 @@ class Runner:
             return C.create, args, cwd
         if k == "verify":
             args = [rootarg]
-            for p in op.get("P", []):
+            for p in list(op.get("P", [])) + (list(op.get("P", []))[:1] if op.get("pdup") else []):
                 args += ["-i", concrete_pattern(w, p)]
             args += self.pattern_file_args(op)
             return C.verify, args, cwd
@@ -203,7 +203,7 @@ class Runner:
                 args.append("-ro")
             if op.get("h"):
                 args += ["-h", op["h"]]
-            for p in op.get("P", []):
+            for p in list(op.get("P", [])) + (list(op.get("P", []))[:1] if op.get("pdup") else []):
                 args += ["-i", concrete_pattern(w, p)]
             args += self.pattern_file_args(op)
             return C.verify, args, cwd
@@ -211,13 +211,15 @@ class Runner:
             return C.verify, [rootarg, "-pl", self.flat_manifest or "/nonexistent"], cwd
         if k == "diff":
             args = [rootarg]
-            for p in op.get("P", []):
+            for p in list(op.get("P", [])) + (list(op.get("P", []))[:1] if op.get("pdup") else []):
                 args += ["-i", concrete_pattern(w, p)]
             args += self.pattern_file_args(op)
             return C.diff, args, cwd
         if k == "flatten":
             if self.spec["world"].get("flatrel"):     # relative destination, resolved against a cwd that is not the source root
                 return C.flatten, [w.cpath(tuple(op["R"])), os.path.basename(w.flat_dest)], w.base
+            if self.spec["world"].get("flatdeep"):    # a destination whose parent does not exist either: nothing outside the destination may appear
+                return C.flatten, [rootarg, os.path.join(w.flat_dest, "lists", "today")], cwd
             return C.flatten, [rootarg, w.flat_dest], cwd
         if k == "info":
             return C.info, [rootarg], cwd
@@ -243,7 +245,7 @@ class Runner:
         self.patfiles += 1
         pf = os.path.join(w.base, "patterns-%d.txt" % self.patfiles)
         with open(pf, "w") as fh:
-            fh.write("".join(concrete_pattern(w, p) + "\n" for p in op["PF"]))
+            fh.write("".join(concrete_pattern(w, p) + "\n" for p in list(op["PF"]) + (list(op["PF"])[:1] if op.get("pdup") else [])))
         return ["-ii", pf]
 
     # -- output parsing ------------------------------------------------------------------
@@ -451,7 +453,7 @@ class Runner:
             cr = m["creator"]
             exp = {"hostname": cr.get("hostname"), "location": cr.get("location"), "comment": cr.get("comment"), "authors": cr.get("authors", []),
                    "proc": m["proc"], "pats": m["pats"],
-                   "files": [{"path": r["path"], "size": int(r["size"]) if r["size"] is not None else None, "ents": [{"f": e["f"], "d": e["d"], "a": e["a"]} for e in r["ents"]], "prev": r["prev"]} for r in m["files"]],
+                   "files": [{"path": r["path"], "size": int(r["size"]) if r["size"] is not None else None, "ents": [{"f": e["f"], "d": e["d"], "a": e["a"], "hd": xmlcheck._naive_utc(e.get("hashdate"))} for e in r["ents"]], "prev": r["prev"]} for r in m["files"]],
                    "dirs": [{"path": r["path"], "ents": [{"f": c["f"], "c": c["d"], "s": s_["d"]} for c, s_ in zip(r["content"], r["structure"])], "prev": r["prev"]} for r in m["dirs"]],
                    "root": None if m["root"] is None else [{"f": c["f"], "c": c["d"], "s": s_["d"]} for c, s_ in zip(m["root"]["content"], m["root"]["structure"])],
                    "refs": m["refs"]}
@@ -581,8 +583,9 @@ class Runner:
                 i = parts.index("ascmhl")
                 return {"area": "hist", "h": [w.rnames.get(c, "?" + c) for c in parts[:i]], "rest": "/".join(parts[i + 1:])}
             return {"area": "media", "h": [w.rnames.get(c, "?" + c) for c in parts], "rest": ""}
-        if p == w.flat_dest or p.startswith(w.flat_dest + os.sep):
-            return {"area": "flat", "h": [], "rest": os.path.relpath(p, w.flat_dest)}
+        fdest = os.path.join(w.flat_dest, "lists", "today") if self.spec["world"].get("flatdeep") else w.flat_dest
+        if p == fdest or p.startswith(fdest + os.sep):
+            return {"area": "flat", "h": [], "rest": os.path.relpath(p, fdest)}
         if p.startswith(w.base):
             return {"area": "other", "h": [], "rest": os.path.relpath(p, w.base)}
         return {"area": "outside", "h": [], "rest": p}
